@@ -93,7 +93,7 @@ func run(r *enumx.Run, replay *enumx.ReplayCase) {
 		return
 	}
 	algs, fromSource := buildAlgs()
-	r.Rule("complete product, no sampling: every algorithm name (the three Supported* lists + every Algorithm_* constant of consts.go + junk names) x every key (oct 1..72 bytes, RSA-2048, P-256/384/521, Ed25519, public and private) x plaintext length 0..64,65,100 x nonce length 0..32 x tag length 0..32 x associated data {nil, empty, 5 bytes} through Encrypt/EncryptSymmetric and Decrypt/DecryptSymmetric; aeskw and aescbcaead directly for every KEK / key size; every (asymmetric algorithm, key kind) pair x 4-5 message lengths; aeskw and A*KW also for key data of 42, 43, 44, 64, 128 and 10923 blocks (step counter beyond one and two bytes); every single-byte change (each position x each xor value, drop last byte, append a byte) of ciphertext, tag, nonce, associated data, wrapped key, label, digest and signature for 3 lengths per algorithm. A case is counted non-trivial when at most one thing is wrong with its inputs (it then reaches the cryptographic code or the one size/kind check that must reject it) or when it is a mutation of a valid output; every case is distinct by construction (index tuple).")
+	r.Rule("complete product, no sampling: every algorithm name (the three Supported* lists + every Algorithm_* constant of consts.go + junk names) x every key (oct 1..72 bytes, RSA-2048, P-256/384/521, Ed25519, public and private) x plaintext length 0..64,65,100 x nonce length 0..32 x tag length 0..32 x associated data {nil, empty, 5 bytes} through Encrypt/EncryptSymmetric and Decrypt/DecryptSymmetric; aeskw and aescbcaead directly for every KEK / key size; every (asymmetric algorithm, key kind) pair x 4-5 message lengths; aeskw and A*KW also for key data of 42, 43, 44, 64, 128 and 10923 blocks (step counter beyond one and two bytes); every sequence of up to 3 operations (valid, failing and panicking ones) on ONE aescbcaead AEAD value per constructor and on ONE jwk.Key from ParseKey, each step compared with the same call on a fresh object; every single-byte change (each position x each xor value, drop last byte, append a byte) of ciphertext, tag, nonce, associated data, wrapped key, label, digest and signature for 3 lengths per algorithm. A case is counted non-trivial when at most one thing is wrong with its inputs (it then reaches the cryptographic code or the one size/kind check that must reject it) or when it is a mutation of a valid output; every case is distinct by construction (index tuple).")
 	r.Assume("the reference (verif/ref/cryptoref) is correct: standard-library primitives called directly; RFC 3394 and RFC 7518 §5.2 written from the RFC text and anchored by the RFCs' vectors (go test ./ref/cryptoref)")
 	r.Assume("asymmetric keys are fixed (generated once, embedded); symmetric keys, nonces, plaintexts are SHA-256-derived from VERIF_SEED; randomised operations (RSAES, PSS, ECDSA) are judged relationally only")
 	r.Assume("a zero-length octet key cannot be expressed as jwk.Key (jwx refuses it) and is covered only through the aescbcaead constructors; aeskw takes a cipher.Block, so its key sizes are those of crypto/aes")
@@ -280,6 +280,25 @@ func run(r *enumx.Run, replay *enumx.ReplayCase) {
 					u.count(true)
 					u.emit(c, u.e.evalSymDec(c))
 				}
+			})
+		}
+	}
+
+	// ---- state: one reusable object, every sequence of up to three operations
+	for _, fam := range stFamilyNames() {
+		fam := fam
+		nops := len(stFamilyByName(fam).ops)
+		for first := 0; first < nops; first++ {
+			first := first
+			add("state", func(u *ctx) {
+				eachSequence(nops, 3, func(seq []int) {
+					if seq[0] != first {
+						return
+					}
+					c := Case{Sec: "state", Ctor: fam, Seq: append([]int{}, seq...)}
+					u.count(len(seq) > 1)
+					u.emit(c, u.e.evalState(c))
+				})
 			})
 		}
 	}
@@ -515,7 +534,7 @@ func run(r *enumx.Run, replay *enumx.ReplayCase) {
 	}
 	perSec := map[string]int64{}
 	busySec := map[string]float64{}
-	for _, sec := range []string{"sym-enc", "sym-dec", "sym-mut", "kw", "kw-long", "aead", "asym-enc", "asym-dec", "asym-mut", "sig", "sig-mut"} {
+	for _, sec := range []string{"sym-enc", "sym-dec", "sym-mut", "kw", "kw-long", "state", "aead", "asym-enc", "asym-dec", "asym-mut", "sig", "sig-mut"} {
 		if total[sec] == 0 {
 			continue
 		}
@@ -568,6 +587,8 @@ func (e *env) evalCase(c Case) []finding {
 		return e.evalKW(c)
 	case "aead":
 		return e.evalAEAD(c)
+	case "state":
+		return e.evalState(c)
 	case "asym-enc":
 		return e.evalAsymEnc(c)
 	case "asym-dec":
